@@ -139,6 +139,7 @@ LifeWant(cur, ev) ==
     [] ev.op = "csel"     -> IF ev.ctrl = 0 THEN cur ELSE a
     [] ev.op = "inv"      -> FInv(cur)
     [] ev.op = "double"   -> FAdd(cur, cur)
+    [] ev.op = "setu64"   -> a
     [] ev.op = "pow2k"    -> LifePow(cur, ev.ctrl)
     [] ev.op = "wide"     -> OS2IP(HexToBytes(ev.arg)) %% P
 LifeObsOK(ev, want) ==
